@@ -8,7 +8,7 @@ THEOREMS = ["IsoVerif.Props.C32.C32_innermost", "IsoVerif.Props.C32.C32_chain_co
             "IsoVerif.Props.C32.C32_unique", "IsoVerif.Props.C32.C32_parsed"]
 HARNESS = ("hx_iso", {"HX_ENGINE": "resolve"})
 DRIVER = "drv_iso"
-CASES = {"quick": 2400, "thorough": 60000}
+CASES = {"quick": 2400, "thorough": 200000}
 TECHNIQUE = ("Lean 4 structural induction over a generic span rose tree modelling the derived ResolvePosition::resolve "
              "(#[resolve_field] shapes regenerated from the Rust source) + differential correspondence for EVERY offset of generated "
              "literals against the real resolve through a span-tree dump hook, and a direct innermost-ness oracle on the dumped tree")
